@@ -79,6 +79,10 @@ type Scenario struct {
 	Faults    []Fault              `json:"faults,omitempty"`
 	ProbePM   int                  `json:"probe_permille,omitempty"`
 	ProbeMaxMS int                 `json:"probe_max_ms,omitempty"`
+	// ParkAt: log message (substring) -> ms: every goroutine that logs it is held there that long. Used to keep
+	// a dying target sender between closing its delivery channel and deregistering it ("UnregisterShard" is
+	// logged in between), so that hand-offs land in that window.
+	ParkAt map[string]int `json:"park_at,omitempty"`
 	HorizonS  int                  `json:"horizon_s"`
 	// WatermarkOnConnect: a reconnecting source first repeats its acknowledged level as a
 	// watermark-only batch (Temporal's sender reports its watermark when it has nothing to send)
@@ -110,6 +114,7 @@ type taskState struct {
 	deliveries int
 	lastSeenInc int // incarnation of the source stream that (last) handed this task over
 	lastSeenSeq int // event number of that hand-over
+	lastSeenVT  int64 // virtual time of that hand-over
 	owner       string
 }
 
@@ -142,6 +147,7 @@ type Recorder struct {
 	srcOpenSeq     map[string]int   // source -> event number at which its current stream incarnation opened
 	srcPrevMaxHigh map[string]int64 // source -> highest exclusive high watermark announced by its EARLIER incarnations
 	tgtOpenSeq     map[string]int   // target stream incarnation -> event number of its opening
+	tgtFaultAt     map[string]int64 // target shard -> virtual time at which the harness broke its stream (latest)
 	kindCount  map[string]int64
 	perStreamKind map[string]int
 	maxOutstandingTargets int
@@ -220,7 +226,7 @@ func (r *Recorder) SrcSend(stream string, m *replicationv1.WorkflowReplicationMe
 				r.srcFirstID[src] = t.SourceTaskId
 			}
 		}
-		ts.lastSeenInc, ts.lastSeenSeq = r.srcInc[src], len(r.Events)
+		ts.lastSeenInc, ts.lastSeenSeq, ts.lastSeenVT = r.srcInc[src], len(r.Events), r.now()
 		if !ts.confirmed {
 			r.unconf[src][t.SourceTaskId] = ts
 		}
@@ -414,6 +420,12 @@ func (r *Recorder) SrcAck(stream string, a int64) {
 		case t.fwdStream != "" && r.tgtEnded[t.fwdStream]:
 			// forwarded on a target-stream incarnation that ended before confirming it
 			cause = "target-stream-broke-holding-task"
+		case t.fwdStream == "" && ended && endSeq > t.lastSeenSeq && r.tgtFaultAt[t.owner] > 0 && t.lastSeenVT >= r.tgtFaultAt[t.owner]+50:
+			// handed over by its source AFTER the owning target's stream had been broken (50 virtual ms earlier or
+			// more: the dying sender has closed its delivery channel by then) and before that sender finished
+			// unwinding: such a hand-off is refused and retried, the task must reach the next incarnation - it
+			// cannot have died in the old incarnation's queue (that is F-C04a)
+			cause = "handed-over-after-target-broke-never-delivered"
 		case t.fwdStream == "" && ended && endSeq > t.lastSeenSeq:
 			// handed over, never seen on a target stream, and the owning target's stream ended
 			// in between: the task died in that incarnation's queue
